@@ -51,40 +51,45 @@ _p("C02", "bounded exhaustive enumeration of assignments x renderings (generator
 _p("C03", "bounded exhaustive enumeration of source configurations (command line x environment x default x optional) vs reference",
    "model checking of the implementation: all combinations of {given in each spelling, not given} x environment {unbound, unset, empty, "
    "17 byte-level values} x default x optional/required for the three kinds, singly and as ordered pairs in one parser, against the "
-   "reference ranking command line > environment > default including the provided flag and verbatim delivery",
+   "reference ranking command line > environment > default including the provided flag and verbatim delivery; second parses on one parser;"
+   "Every enumeration is repeated on a parser object that was used before (incremental declaration through kept references after usage() and warm-up parses, late short names, move assignment over a used parser)",
    "DESIGN.md 6 C03")
 _p("C04", "bounded exhaustive enumeration of byte-level argument vectors with fork-isolated totality oracle + reference accept/reject boundary",
-   "model checking of the implementation: 12 declarations x every argument vector up to the bound over a 48-token byte-level alphabet "
-   "(whole malformed family) x environments + long-token stress cases; every execution must return or throw exactly parsing_error "
+   "model checking of the implementation: 12 declarations x every argument vector up to the bound over a 54-token byte-level alphabet "
+   "(whole malformed family) x environments + long-token stress cases (up to 200 kB) through both entry points parse(argc, argv) and "
+   "parse(std::vector<user_input>), second parses, parsers used before their declaration was complete or re-used through move assignment; every execution must return or throw exactly parsing_error "
    "(crash, terminate, other exception, sanitizer report, hang are attributed to the case) and accept exactly when the reference accepts",
    "DESIGN.md 6 C04")
 _p("C11", "bounded exhaustive enumeration of toggle declarations x occurrence patterns x environment words; closed-world word enumeration",
    "model checking of the implementation: 96 toggle declarations (short name, reversible, default 0/1/3, env bound, alone / with a second toggle and an option in the same or in different groups) x every vector up to the bound over the occurrence alphabet (counts, "
    "bundles, --no- in all orders) against the reference; the environment vocabulary is decided as a closed world over every string up "
-   "to the length bound over the vocabulary's characters, all case variants and all single edits of the 30 documented words",
+   "to the length bound over the vocabulary's characters, all case variants and all single edits of the 30 documented words;"
+   "Every enumeration is repeated on a parser object that was used before (incremental declaration through kept references after usage() and warm-up parses, late short names, move assignment over a used parser)",
    "DESIGN.md 6 C11")
 _p("C12", "bounded exhaustive enumeration of positional configurations x argument vectors x indices vs reference",
    "model checking of the implementation: accepted count {0,1,2,3,unlimited} x greedy x every vector up to the bound over a 14-token "
    "alphabet mixing values, `--`, malformed dash tokens and option spellings; positional list, accept/reject and every index in "
-   "[-m,m-1] (and memory safety for the two indices outside) against the reference",
+   "[-m,m-1] (and memory safety for the two indices outside) against the reference; second parses; parser objects that held the "
+   "opposite greedy mode before (move assignment) or were used before their options were declared",
    "DESIGN.md 6 C12")
 _p("C14", "explicit-state search over parse histories on one parser object, differential oracle against a fresh parser",
-   "model checking of the implementation: every sequence of <= h (argument vector, environment) events (succeeding and failing) on one "
-   "parser object for 3 declarations, each outcome compared with a freshly built identical parser; plus BFS de-duplicated on the "
+   "model checking of the implementation: every sequence of <= h events (argument vector x environment through parse(argc, argv), "
+   "argument vectors through parse(std::vector<user_input>), replacement of the declaration by move assignment; succeeding and failing) on one "
+   "parser object for 4 declarations, each outcome compared with a freshly built identical parser; plus BFS de-duplicated on the "
    "option objects' public state to a fixpoint, which extends the statement to all finite sequences over the event alphabet",
    "DESIGN.md 6 C14")
 TEXT["C14"]["engine"] = "seqmc"
 _p("C13", "explicit-state search (depth-bounded enumeration + BFS to fixpoint) over declaration histories incl. moving the parser, vs reference map",
-   "model checking of the implementation: every history of <= d declaration events (declare 3 kinds x 2 names x parser|g1|g2, short_name "
-   "valid/invalid/changed, MOVE of the parser) and a BFS to a fixpoint over all reachable reference states; every step must agree with "
+   "model checking of the implementation: every history of <= d declaration events (declare 3 kinds x 3 names x parser|g1|g2 (through kept group references), short_name "
+   "valid/invalid/changed, MOVE of the parser with the old object destroyed or kept, PARSE) and a BFS to a fixpoint over all reachable reference states; every step must agree with "
    "the reference (new name ok, identical re-declaration returns the identical object, anything else parser_error) and at every state "
-   "probe parses of every spelling must resolve to exactly the declared item, or parse must refuse when a letter is shared",
+   "probe parses of every spelling - through both public parse entry points - must resolve to exactly the declared item, or parse must refuse when a letter is shared",
    "DESIGN.md 6 C13")
 TEXT["C13"]["engine"] = "seqmc"
 _p("C15", "bounded exhaustive enumeration of declarations x target streams; differential oracle across streams + structural parse-back",
    "model checking of the implementation: ~27k declarations (single item over the full attribute product incl. 38..60-character words and a "
-   "45-character name; 2-3 items over groups, group creation orders and name permutations) x 7 target streams (fresh, prior content of "
-   "1/79/200 characters with and without line break, non-seekable); the text must not depend on the stream, list every item once in "
+   "45-character name; 2-3 items over groups, group creation orders and name permutations) x 10 target streams (fresh, prior content of "
+   "1/79/200 characters with and without line break, non-seekable, after a parse, after a parse that took its values from the environment, from the moved parser); defaults and names include `{}`; the text must not depend on the stream, list every item once in "
    "group-creation / declaration order with spelling, placeholder, hint and default, keep every description word, and respect 80 columns",
    "DESIGN.md 6 C15")
 
@@ -94,7 +99,7 @@ TEXT["C06"] = dict(engine="seqmc", design_ref="DESIGN.md 6 C06",
     technique="explicit-state BFS to a fixpoint over operation histories of the real container + exhaustive fault-position enumeration, ASan/UBSan",
     level="model checking of the implementation: every reachable concrete state of fixed_vector (capacities 0..bound, copyable and move-only "
           "instrumented element types) x every operation with every in-range and out-of-range argument, to a fixpoint - i.e. every finite "
-          "operation sequence over the alphabet - plus every position at which an element copy/move/construction can throw; judged: size <= "
+          "operation sequence over the alphabet - (aliasing arguments, ranges through random-access, move and single-pass input iterators) plus every position at which an element copy/move/construction can throw; judged: size <= "
           "capacity, capacity fixed, unsatisfiable operations throw and leave the container unchanged, no unfilled slot visible, exact "
           "element accounting (no leak, no double destroy), moved-from containers usable, no sanitizer report",
     note=_FV_NOTE)
@@ -110,7 +115,8 @@ TEXT["C17"] = dict(engine="enum", design_ref="DESIGN.md 6 C17",
     technique="bounded exhaustive enumeration of strings x separators / patterns / replacements vs naive single-pass references, with per-case termination oracle",
     level="model checking of the implementation: every string over {a,b,blank} up to the length bound (and over {a,NUL} up to 5) x every separator/pattern/replacement "
           "of length <= 3 (empty, overlapping and self-containing ones included) and every list of <= 3 elements x 5 infixes is run through "
-          "the real split / replace_all / starts_with / join; the laws of the statement and agreement with naive left-to-right scanners are "
+          "the real split / replace_all / starts_with / join, replace_all also with the string itself as pattern / replacement, join also over 11 element types in "
+          "every history of <= 3 calls; the laws of the statement and agreement with naive left-to-right scanners are "
           "checked on every case, and every call must return (timer + address-space limit)",
     note="trusted: the naive reference scanners in checks/C17.cpp; alphabets of 3 characters and of {a, NUL}; g++/ASan")
 TEXT["C18"] = dict(engine="seqmc", design_ref="DESIGN.md 6 C18",
@@ -142,7 +148,8 @@ TEXT["C16"] = dict(engine="enum", design_ref="DESIGN.md 6 C16",
     level="model checking (exhaustive small grids): for three mix-in value types, nested tuple/pair/variant and smart pointers, every ordered "
           "pair (six comparison operators vs hand-written lexicographic comparison, trichotomy, equal => equal hash incl. signed zeros), every "
           "triple (transitivity), every in-place change value_i -> value_j after the object was hashed (hash must follow the members), hash "
-          "sensitivity per member position and to member order, and hash containers (find exactly the inserted keys)",
+          "sensitivity per member position and to member order - also per top-level component of nested tuples / pairs / variants / pointers and for "
+          "u16/u32/wide strings - and hash containers (find exactly the inserted keys)",
     note="trusted: hand-written member comparisons; NaN excluded; 'rare collisions' judged as <= 5 % on the grid")
 TEXT["C19"] = dict(engine="seqmc", design_ref="DESIGN.md 6 C19",
     technique="exhaustive (name, value, default, overload) grid for env::get; explicit-state BFS to a fixpoint over dl/symbol histories with interposed dlopen/dlclose",
@@ -150,7 +157,8 @@ TEXT["C19"] = dict(engine="seqmc", design_ref="DESIGN.md 6 C19",
           "dl: every reachable state of a pool of 2 library and 2 symbol objects over two test libraries and the program itself under open / "
           "failed open / load / failed load / copy / assign / move / call / destroy, to a fixpoint; after every transition the loader's mapping "
           "state (RTLD_NOLOAD) and the dlopen/dlclose balance must equal the reference count per successful open, failed opens and lookups "
-          "raise nitro::dl::exception with a diagnostic, symbols call into their own library",
+          "raise nitro::dl::exception with a diagnostic that a kept copy still carries after later loader calls, symbols call into their own library; "
+          "explored in a release-like (-DNDEBUG) and a debug-like build",
     note="trusted: link-time interposition of dlopen/dlclose in the harness executable, this image's glibc loader, the reference counting model in checks/C19.cpp")
 
 _LOG_NOTE = ("trusted: the reference interpreter (severity >= compile-time minimum and boolean evaluation of the filter expression) and the recording "
@@ -158,9 +166,11 @@ _LOG_NOTE = ("trusted: the reference interpreter (severity >= compile-time minim
 TEXT["C05"] = dict(engine="enum", design_ref="DESIGN.md 6 C05",
     technique="exhaustive enumeration of generated log programs per compile-time minimum, event-by-event comparison with a reference interpreter",
     level="model checking of the implementation over generated programs: for each of the 6 compile-time minima, 17 filter expressions (severity thresholds, and/or/not, null, and a tag-inspecting filter) x threshold "
-          "grids x 6 severities x tag/no tag x both syntactic forms, threshold changes between statements, every item tuple of length <= 3 over "
-          "9 item kinds (strings, numbers, callables, manipulators, a callable that itself logs), every sequence of <= 3 statements over 7, and "
-          "two overlapping named streams; the event log (format, then each sequence-sink member in order, per enabled statement, in program "
+          "grids x 6 severities x tag/no tag x three syntactic forms (one expression, named stream, reference bound to the first insertion), a second "
+          "record type with its own thresholds, threshold changes between statements, every item tuple of length <= 3 over "
+          "11 item kinds (strings, numbers, callables, manipulators, a callable that itself logs, a null C string, a derived object through its base), "
+          "every sequence of <= 3 statements over 8 under 5 filter settings (also during stack unwinding), two overlapping named streams, and two "
+          "named streams with non-nested lifetimes around a whole statement; the event log (format, then each sequence-sink member in order, per enabled statement, in program "
           "order, with severity, tag and concatenated message) must equal the reference's, nothing for disabled statements",
     note=_LOG_NOTE)
 TEXT["C10"] = dict(engine="enum", design_ref="DESIGN.md 6 C10",
@@ -173,12 +183,12 @@ TEXT["C10"] = dict(engine="enum", design_ref="DESIGN.md 6 C10",
 
 TEXT["C09"] = dict(engine="schedmc", design_ref="DESIGN.md 6 C09",
     technique="stateless preemption-bounded schedule exploration (iterative context bounding) of real threads under a cooperative scheduler + free-running ThreadSanitizer pass",
-    level="model checking of the implementation: 2-3 real threads issuing 1-2 records of different length and severity through "
+    level="model checking of the implementation: 2-4 real threads issuing 1-3 records (one configuration with named streams of non-nested lifetimes) of different length and severity through "
           "logger<stdout_mt> and logger<StdErrThreaded> are serialised at every interposed pthread_mutex_lock/unlock/trylock and at every byte and "
           "flush phase of a deliberately non-thread-safe stream buffer; every schedule with at most k preemptions (k iterated 0..3), and - "
           "without any bound - every interleaving up to equality of the whole program state (state hashing at the choice points; all 90 / "
           "24 record orders of 3x2 / 4x1 threads are reached), and every schedule as a first use in a fresh process, runs to completion and its output must be a concatenation of whole records, each exactly "
-          "once, per-thread order kept, the buffer never entered by two threads, no deadlock; a ThreadSanitizer build of the same bodies runs free",
+          "once, per-thread order kept, the buffer never entered by two threads, no deadlock; the deciding binary is compiled without -pthread (what a default CMake build on this glibc does); a ThreadSanitizer build of the same bodies runs free",
     note="trusted: the scheduler in engine/sched.c (uninstrumented, raw futex hand-off), the owner-table model of the mutexes, sequential "
          "consistency between scheduling points; the TSan pass is a detector, not part of the exhaustive claim")
 
